@@ -291,6 +291,47 @@ def _job(beh):
     return replay(beh)
 
 
+def renumbered_real(ctx):
+    """RenumberTheorem (TLC, on the model) at real scale: a plate of 80 x 80 cells in the mesher's numbering (boundary nodes first,
+    ids of a boundary group compact) and the same plate with its nodes renumbered at random (ids of a boundary group spread over
+    the whole range, as in an imported or merged mesh).  Stiffness, the load vector of a line load with a linear density and of
+    a body force are the permutation of the original ones - nothing else changes."""
+    from EasyFEA import Mesher, Models, Simulations
+    from EasyFEA.FEM import ElemType
+    from EasyFEA.Geoms import Domain, Point
+    from harness.lifecycle import quiet
+    from harness.props.c01 import renumber
+
+    for elem, n in (("QUAD4", 80), ("TRI3", 60)) + ((("TRI6", 40),) if ctx.thorough else ()):
+        with quiet():
+            mesh = Mesher().Mesh_2D(Domain(Point(0, 0), Point(1, 1), 1.0 / n), [], ElemType(elem), isOrganised=True)
+        perm = np.random.default_rng(7 + ctx.seed).permutation(mesh.Nn)
+        with quiet():
+            mesh2 = renumber(mesh, 7 + ctx.seed)   # node i of mesh is node perm[i] of mesh2
+        out = []
+        for m in (mesh, mesh2):
+            with quiet():
+                sim = Simulations.Elastic(m, Models.Elastic.Isotropic(2, E=10.0, v=0.3, planeStress=True, thickness=0.5), verbosity=False)
+                right = m.Nodes_Conditions(lambda x, y, z: x == 1)
+                sim.add_lineLoad(right, [lambda x, y, z: 1 + y], ["y"])
+                sim.add_volumeLoad(m.nodes, [0.3], ["x"])
+                K = sim.Get_K_C_M_F()[0].tocsr()
+                F = np.asarray(sim.Bc_vector_Neumann()).ravel()
+            out.append((K, F))
+        (K1, F1), (K2, F2) = out
+        dofs = (perm[:, None] * 2 + np.arange(2)[None, :]).ravel()   # dof (i, c) of mesh is dof (perm[i], c) of mesh2
+        Kp = K2[dofs][:, dofs]
+        errK = abs(Kp - K1).max() / abs(K1).max()
+        errF = np.abs(F2[dofs] - F1).max() / np.abs(F1).max()
+        tot = (F1.reshape(-1, 2).sum(0), F2.reshape(-1, 2).sum(0))
+        if errK > 1e-12:
+            ctx.violation(f"renumbered-real/K/{elem}", f"{elem} plate, {mesh.Nn} nodes renumbered at random: the stiffness matrix is not the permutation of the original one (max relative {errK:.3g})", {"elem": elem, "n": n})
+        if errF > 1e-12:
+            ctx.violation(f"renumbered-real/F/{elem}", f"{elem} plate, {mesh.Nn} nodes renumbered at random: the load vector (line load 1 + y on x = 1, body force) is not the permutation of the original one (max relative {errF:.3g}; resultants {tot[0]} / {tot[1]})", {"elem": elem, "n": n})
+        ctx.count(2, distinct_key=("renumbered-real", elem))
+    ctx.section("renumbered_real", plates=["QUAD4 80x80", "TRI3 60x60"] + (["TRI6 40x40"] if ctx.thorough else []))
+
+
 def run(ctx):
     from harness.lifecycle import split_behaviours
 
@@ -350,6 +391,7 @@ def run(ctx):
     if full:
         ctx.sample({"behaviour": [s["act"] | ({"order": s["last"]["order"], "pat": s["last"]["pat"]} if s["act"]["name"] == "Assemble" else {}) for s in full[0]]})
     real_classes(ctx)
+    renumbered_real(ctx)
     index_width(ctx)
     ctx.cov["rule"] = "TLC simulation-mode behaviours of Assembly.tla replayed bit-for-bit on a _Simu subclass; distinct = distinct (mesh variant, dof_n, group order, slot pattern, complex, memo hit, system size)"
     ctx.assume("integer element data sum exactly in floating point, so the comparison is exact; a SetMesh as first action picks an arbitrary other initial mesh (the memo is cleared either way)")
